@@ -110,11 +110,22 @@ fn check_consuming(
 }
 
 fn consuming(tape: &[u32], st: &mut Stats) -> CaseResult {
+    consuming_sized(tape, st, &[6usize, 12, 24, 70])
+}
+/// so many occurrences of 1-2 variables that a variable occurs more than 255 times
+fn consuming_many(tape: &[u32], st: &mut Stats) -> CaseResult {
+    consuming_sized(tape, st, &[500usize, 700, 900])
+}
+fn consuming_sized(tape: &[u32], st: &mut Stats, sizes: &[usize]) -> CaseResult {
     let mut t = Tape::new(tape);
-    let nvars = 1 + t.choose(8);
+    let mut nvars = 1 + t.choose(8);
+    let max_operands = sizes[t.choose(sizes.len())];
+    if max_operands > 100 {
+        nvars = 1 + t.choose(2);
+    }
     let cfg = CaseCfg {
         table: TableCfg { max_bin: 5, max_un: 3, max_const: 1, ..TableCfg::default() },
-        tree: TreeCfg { max_operands: [6usize, 12, 24, 70][t.choose(4)], lit_pct: 15, unary_pct: 15, ..TreeCfg::default() },
+        tree: TreeCfg { max_operands, lit_pct: 15, unary_pct: if max_operands > 100 { 4 } else { 15 }, ..TreeCfg::default() },
         render: RenderCfg::default(),
         max_vars: nvars,
         weird_pct: 0,
@@ -127,10 +138,12 @@ fn consuming(tape: &[u32], st: &mut Stats) -> CaseResult {
     let has1 = occ.values().any(|c| *c == 1);
     st.class_if(has3, "a variable occurs >=3 times");
     st.class_if(has1, "a variable occurs exactly once");
+    st.class_if(occ.values().any(|c| *c > 255), "a variable occurs more than 255 times");
     st.class_if(case.facts.operands > 32, ">32 operands");
     st.class_if(case.facts.operands > 64, ">64 operands");
     st.class_if(case.names.len() > 16, ">16 variables");
-    if has3 && has1 {
+    let many = occ.values().any(|c| *c > 255);
+    if (has3 && has1) || many {
         if st.nontrivial(&format!("{}|{}", case.text, describe_table(&case.table))) && st.want_sample() {
             let mut c = case.describe();
             c["occurrences"] = json!(occ.iter().map(|(k, v)| (case.pool.names[*k].clone(), *v)).collect::<Vec<_>>());
@@ -234,6 +247,11 @@ pub fn def() -> PropDef {
                 name: "consuming",
                 rule: "tape -> table x 1-8 variables x tree(up to 6/12/24/70 operands, 85% variables) x rendering; forms folded, unfolded, flat built from deep; non-trivial = some variable occurs >=3 times and another exactly once; distinct by text+table",
                 kind: Kind::Tape { len: 900, quick: 30_000, thorough: 2_000_000, f: consuming },
+            },
+            SubCheck {
+                name: "consuming_many",
+                rule: "as consuming with trees of up to 500/700/900 operands over 1-2 variables (occurrence counters, quadratic scans); non-trivial = a variable occurs more than 255 times",
+                kind: Kind::Tape { len: 8000, quick: 60, thorough: 20_000, f: consuming_many },
             },
             SubCheck {
                 name: "zero_occurrence",
